@@ -46,6 +46,7 @@ type Opts struct {
 	FuncsPer     int
 	SmallBody    bool
 	NoNestedMain bool
+	NoSameBase   bool // no two main packages with the same directory base name (binaries are named by it)
 	NoLookAlikes bool // no packages whose path extends a tracking package path
 	PkgDirNotes  bool // always put the hand-written NOTES.md into internal/cov (a possible tracking package path)
 }
@@ -154,6 +155,18 @@ func Generate(r *rand.Rand, o Opts) *Project {
 			}
 		}
 	}
+	// two main packages whose directories have the same base name (svc/a/cmd/app, svc/b/cmd/app)
+	if !o.NoNestedMain && !o.NoSameBase && r.Intn(3) == 0 {
+		for _, d := range []string{"svc/a/cmd/app", "svc/b/cmd/app"} {
+			sm := &Pkg{Dir: d, Name: "main", IsMain: true}
+			for j := 0; j < nLibs; j++ {
+				if j != orphan && r.Intn(100) < 50 {
+					sm.Imports = append(sm.Imports, j)
+				}
+			}
+			p.Pkgs = append(p.Pkgs, sm)
+		}
+	}
 	// a main package nested below another main's directory (mainEntries selections must not
 	// match it by prefix)
 	if !o.NoNestedMain && r.Intn(3) == 0 {
@@ -183,6 +196,7 @@ func Generate(r *rand.Rand, o Opts) *Project {
 				f.MainMethod = r.Intn(4) == 0
 				f.OneLineMain = r.Intn(5) == 0
 				f.MainSkeleton = r.Intn(4) == 0
+				f.AlignedTable = r.Intn(3) == 0
 			}
 			if fi == 0 && r.Intn(3) == 0 {
 				f.InitK = 2 + r.Intn(90)
